@@ -236,6 +236,7 @@ class RenderLeg(Leg):
             qs = self.queries_for(rng, u)
             rng.shuffle(qs)                                   # e.g. a sorted rendering before the unsorted one
             case = {"ops": ops, "queries": qs, "caching": rng.random() < 0.5}
+            case["warm"] = case["caching"] and rng.random() < 0.5   # neighbors() asked under OTHER settings before the rendering
             if rng.random() < 0.5:
                 case["ops2"] = gen_render_phase2(rng, ops, u, vids)      # the same universe rendered again after edits
             yield case
@@ -247,6 +248,8 @@ class RenderLeg(Leg):
                 if i % 2:
                     o.tag = i
         self.decorate(w, case)
+        if case.get("warm"):
+            Q.warm_memo(w)
         snap = w.snapshot()
         before = [dict(vars(o)) for o in w.objs]
         answers = [run_rquery(w, q) for q in case["queries"]]
